@@ -9,7 +9,9 @@ input variable is read back and compared with
    * the supplied data for input variables.
 Stream `twin-units`: two names whose bounds differ only in the unit.  Stream `raise-resume`: online runs (discrete and dense time)
 in which update() raises for some samples after other names were evaluated, the caller catches the exception and goes on; every
-name and input variable read back after each update() that returned.
+name and input variable read back after each update() that returned.  Stream `batch-boundary`: dense-time online monitor, 2-4
+update() calls whose batches repeat (or not) the boundary sample, names / variables as direct operands of binary operators; every
+name against its stand-alone monitor fed the same batches and every variable against the batch, after every update().
 """
 from .. import common, formula as F, impl, disc, modular as M
 from ..common import same_vals
@@ -19,7 +21,9 @@ RULE = ("modular specs as in C09 (1-5 named assertions, shared stateful sub-spec
         "traces 1..10; every name and every input variable read back after evaluate() / after each update(). distinct by "
         "(spec, data, monitor); non-trivial when some named value is not constant +-inf. raise-resume: 1-3 names (half of them without "
         "temporal operators, some referring to an earlier one) around an assertion that raises on 1-3 of 3-9 samples (sqrt / ln outside "
-        "the domain, division by zero), ond / onc (one or two samples per update).")
+        "the domain, division by zero), ond / onc (one or two samples per update). batch-boundary: onc, 1-3 names (not / variable / abs / "
+        "comparison / bounded past of x, y or an earlier name) joined by and / or / implies / + / since, 2-4 updates of 1-3 new samples, "
+        "60 % of the cases with the boundary sample repeated at the head of the next batch.")
 EXPLANATION = ("theorems: C09_program_refines_trees / C09_program_eq_rho: the memo (`ast.results`) of the dictionary-and-memo "
                "interpreter holds, for every assertion and operator sub-formula, the value of its stand-alone monitor (= rho); "
                "offline the results table is filled by the same visitor as C01 (one entry per node). Correspondence: get_value of "
@@ -148,6 +152,8 @@ def replay(ctx, obj):
         return replay_twin(ctx, obj, "C12")
     if obj.get("kind") == "raise-resume":
         return replay_raise_resume(ctx, obj)
+    if obj.get("kind") == "batch-boundary":
+        return replay_batch_boundary(ctx, obj)
     if obj.get("monitor") in ("offc", "onc"):
         from .. import dense
         return dense.replay_getvalue(ctx, obj)
@@ -531,6 +537,156 @@ def replay_raise_resume(ctx, obj):
     v = rr_check(Ctx(ctx.id, ctx.tier, ctx.seed), rr_case_of_rep(obj))
     return (v is None), (v.what if v else "after the failed update() get_value agrees with the stand-alone specifications")
 
+# ------------------------------------------------------------------------------------------------- stream `batch-boundary`
+# Dense-time ONLINE monitor fed by several update() calls (the shared dense get_value stream makes one update() only).  Half of
+# the cases REPEAT the boundary sample: a batch starts with the last sample (same time, same value) of the previous one, which is
+# legal and yields the same results as not repeating it.  The names (and input variables) are direct operands of binary
+# operators, several of them of operators that hand their operand's list on without de-duplicating it (`not`, a variable).  After
+# EVERY update() every name is read back and compared with the stand-alone monitor of that name fed the same batches, every input
+# variable with the batch supplied.
+BB_OPERANDS = ["not(%s)", "not(%s)", "%s", "abs(%s)", "(%s >= 1.0)", "(%s + 1.0)", "once[0,1](%s)", "historically[0,2](%s)", "-(%s)"]
+BB_BIN = ["and", "and", "and", "or", "implies", "+", "since"]
+
+
+def bb_gen_case(rng):
+    vs = ["x", "y"]
+    k = rng.randint(1, 3)
+    defs, pool = [], []
+    for i in range(k):
+        nm = "abc"[i]
+        src = rng.choice(vs + pool) if rng.random() < 0.25 and pool else rng.choice(vs)
+        t = rng.choice(BB_OPERANDS)
+        if t == "%s":
+            t = "(%s)"
+        defs.append((nm, t % src))
+        pool.append(nm)
+    cand = pool + vs
+    l = rng.choice(pool)
+    r = rng.choice([c for c in cand if c != l])
+    if rng.random() < 0.5:
+        l, r = r, l
+    top = "(%s) %s (%s)" % (l, rng.choice(BB_BIN), r)
+    if rng.random() < 0.3:
+        defs.append(("d", top))
+        top = "(d) %s (%s)" % (rng.choice(["and", "or"]), rng.choice(cand))
+    defs.append(("out", top))
+    # the batches: strictly increasing times; `repeat`: each batch but the first starts with the last sample of the previous one
+    repeat = rng.random() < 0.6
+    n = rng.randint(2, 4)
+    step = rng.choice([1.0, 1.0, 0.5])
+    t, last, batches = 0.0, None, []
+    for b in range(n):
+        m = rng.randint(1, 3)
+        bx, by = [], []
+        if last is not None and (repeat and rng.random() < 0.85):
+            bx.append([last[0], last[1]])
+            by.append([last[0], last[2]])
+        for _ in range(m + (1 if b == 0 else 0)):
+            x, y = (rng.choice([-2.0, -1.0, 0.0, 0.5, 1.0, 2.0, 3.0, 5.0]) for _ in "xy")
+            bx.append([t, x])
+            by.append([t, y])
+            last = (t, x, y)
+            t += step * rng.randint(1, 2)
+        batches.append({"x": bx, "y": by})
+    return {"defs": defs, "vars": vs, "batches": batches, "repeat": repeat}
+
+
+def bb_rep(case):
+    return {"kind": "batch-boundary", "monitor": "onc", "defs": [list(d) for d in case["defs"]], "vars": case["vars"],
+            "batches": case["batches"], "spec": "; ".join("%s = %s" % (nm, b) for nm, b in case["defs"])}
+
+
+def _bb_inline(defs, nm):
+    """the formula bound to `nm`, the names it refers to replaced by their (parenthesised) formulas"""
+    import re
+    done = {}
+    for n_, body in defs:
+        done[n_] = re.sub(r"\b([abcd])\b", lambda mo: "(" + done[mo.group(1)] + ")", body)
+    return done[nm]
+
+
+def _bb_run(case, text, declare, read_names, read_vars):
+    def go():
+        spec = impl.make_spec("onc", text, case["vars"], extra_decl=declare)
+        spec.parse()
+        steps = []
+        for b in case["batches"]:
+            res = spec.update(*[[v, [list(s) for s in b[v]]] for v in case["vars"]])
+            got = {nm: [list(s) for s in spec.get_value(nm)] for nm in read_names}
+            got.update({"var:" + v: [list(s) for s in spec.get_value(v)] for v in read_vars})
+            steps.append(([list(s) for s in res], got))
+        return steps
+    return impl.guarded(go)
+
+
+def bb_check(ctx, case):
+    rep = bb_rep(case)
+    names = [nm for nm, _ in case["defs"]]
+    text = "\n".join("%s = %s;" % d for d in case["defs"])
+    import re
+    used = [v for v in case["vars"] if any(re.search(r"\b%s\b" % v, b) for _, b in case["defs"])]
+    got = _bb_run(case, text, names[:-1], names, used)
+    rep["impl"] = got
+    if got[0] != "ok":
+        return Violation("dense onc, several updates: update/get_value raised %r: %s" % (got[1:], rep["spec"]), rep, stream="batch-boundary")
+    for i, (_, g) in enumerate(got[1]):
+        for v in used:
+            want = [[float(t), float(x)] for t, x in case["batches"][i][v]]
+            have = [[float(t), float(x)] for t, x in g["var:" + v]]
+            if have != want:
+                return Violation("dense onc: after update %d get_value(%r) returns %r, the batch supplied is %r: %s"
+                                 % (i, v, have, want, rep["spec"]), dict(rep, update=i), stream="batch-boundary/input")
+    for nm in names:
+        alone = _bb_run(case, "out = %s" % _bb_inline(case["defs"], nm), [], [], [])
+        ctx.evaluations += 1
+        if alone[0] != "ok":
+            return Violation("stand-alone specification %s = ... raised %r" % (nm, alone[1:]), dict(rep, name=nm, standalone=alone),
+                             stream="batch-boundary")
+        for i, (_, g) in enumerate(got[1]):
+            want = alone[1][i][0]
+            if not (len(g[nm]) == len(want) and all(common.same_nums(p, q) for p, q in zip(g[nm], want))):
+                return Violation("dense onc: after update %d get_value(%r) returns %r, the stand-alone specification 'out = %s' fed the same "
+                                 "batches returns %r: %s" % (i, nm, g[nm], _bb_inline(case["defs"], nm), want, rep["spec"]),
+                                 dict(rep, name=nm, update=i, standalone=alone), stream="batch-boundary")
+    ctx.nontrivial.add(("bb", rep["spec"], str(case["batches"])))
+    return None
+
+
+def bb_shrink(ctx, case):
+    """fewer updates (from the end, then from the front) while the case still fails"""
+    fails = lambda c: bb_check(Ctx(ctx.id, ctx.tier, ctx.seed), c) is not None
+    cur = case
+    while len(cur["batches"]) > 1:
+        for cand in (dict(cur, batches=cur["batches"][:-1]), dict(cur, batches=cur["batches"][1:])):
+            if fails(cand):
+                cur = cand
+                break
+        else:
+            break
+    return cur
+
+
+def batch_boundary_stream(ctx, rng, count):
+    for _ in range(count):
+        c = bb_gen_case(rng)
+        ctx.evaluations += 1
+        ctx.count("stream:batch-boundary")
+        ctx.count("batch-boundary:" + ("boundary-sample-repeated" if c["repeat"] else "disjoint-batches"))
+        v = bb_check(ctx, c)
+        if v is None:
+            ctx.traces_validated += 1
+            continue
+        v = bb_check(ctx, bb_shrink(ctx, c)) or v
+        ctx.violations.append(v)
+        if len(ctx.violations) >= 3:
+            return
+
+
+def replay_batch_boundary(ctx, obj):
+    c = {"defs": [tuple(d) for d in obj["defs"]], "vars": obj["vars"], "batches": obj["batches"], "repeat": True}
+    v = bb_check(Ctx(ctx.id, ctx.tier, ctx.seed), c)
+    return (v is None), (v.what if v else "after every update() get_value agrees with the stand-alone specifications and the batches")
+
 
 def run(ctx):
     explore(ctx, ctx.subrng("getv"), ctx.budget(1200, 8000))
@@ -538,6 +694,8 @@ def run(ctx):
         twin_units_stream(ctx, ctx.subrng("twin-units"), ctx.budget(40, 300))
     if not ctx.violations:
         raise_resume_stream(ctx, ctx.subrng("raise-resume"), ctx.budget(250, 1500))
+    if not ctx.violations:
+        batch_boundary_stream(ctx, ctx.subrng("batch-boundary"), ctx.budget(120, 1000))
     if not ctx.violations:
         try:
             from .. import dense
